@@ -97,6 +97,29 @@ impl Field {
     }
 }
 
+/// Type of the user data handed to `solve()`: `()` or a non-zero-sized counter the derivative mutates.
+#[derive(Clone, Copy, Debug, PartialEq, Eq, Hash, PartialOrd, Ord)]
+pub enum DataMode {
+    Unit,
+    Counter,
+}
+
+impl DataMode {
+    pub fn name(self) -> &'static str {
+        match self {
+            DataMode::Unit => "()",
+            DataMode::Counter => "Counter",
+        }
+    }
+    pub fn from_name(s: &str) -> Option<DataMode> {
+        match s {
+            "()" => Some(DataMode::Unit),
+            "Counter" => Some(DataMode::Counter),
+            _ => None,
+        }
+    }
+}
+
 /// One call made by the simulated user of a builder.
 #[derive(Clone, Copy, Debug, PartialEq)]
 pub enum BOp {
@@ -202,15 +225,21 @@ pub enum Problem {
     Stiff,
     /// y_i' = -2 t + i (state independent)
     Quadratic,
+    /// y_i' = +1.5 y_i (growing)
+    Growing,
+    /// y_i' = cos(10 t + i) (oscillatory, state independent)
+    Oscillating,
 }
 
-pub const PROBLEMS: [Problem; 6] = [
+pub const PROBLEMS: [Problem; 8] = [
     Problem::Zero,
     Problem::Linear,
     Problem::Rotation,
     Problem::Riccati,
     Problem::Stiff,
     Problem::Quadratic,
+    Problem::Growing,
+    Problem::Oscillating,
 ];
 
 impl Problem {
@@ -222,6 +251,8 @@ impl Problem {
             Problem::Riccati => "riccati",
             Problem::Stiff => "stiff",
             Problem::Quadratic => "quadratic",
+            Problem::Growing => "growing",
+            Problem::Oscillating => "oscillating",
         }
     }
     pub fn from_name(s: &str) -> Option<Problem> {
@@ -353,6 +384,11 @@ pub enum Drive {
     Fold,
     /// `next()` until the first `Err` or `None`, then `collect_vec()` on the same iterator
     PollThenCollect,
+    /// `next()` until the first `Err` or `None`, then `count()` on the same iterator (by value;
+    /// `count`, `for_each`, `sum`, `max_by` ... are all built on `fold`)
+    PollThenCount,
+    /// `next()` until the first `Err` or `None`, then `last()` on the same iterator
+    PollThenLast,
     /// `it.nth(m)` with m >= 1 (what `skip` and `step_by` are built on), compared with the
     /// provided implementation over `next()`
     NthSkip(u8),
@@ -372,6 +408,8 @@ impl Drive {
             Drive::Nth0 => "nth0".into(),
             Drive::Fold => "fold".into(),
             Drive::PollThenCollect => "poll_then_collect_vec".into(),
+            Drive::PollThenCount => "poll_then_count".into(),
+            Drive::PollThenLast => "poll_then_last".into(),
             Drive::NthSkip(m) => format!("nth:{}", m),
             Drive::Count => "count".into(),
             Drive::Last => "last".into(),
@@ -385,6 +423,8 @@ impl Drive {
             "nth0" => Some(Drive::Nth0),
             "fold" => Some(Drive::Fold),
             "poll_then_collect_vec" => Some(Drive::PollThenCollect),
+            "poll_then_count" => Some(Drive::PollThenCount),
+            "poll_then_last" => Some(Drive::PollThenLast),
             "count" => Some(Drive::Count),
             "last" => Some(Drive::Last),
             _ if s.starts_with("nth:") => s.strip_prefix("nth:").and_then(|n| n.parse().ok()).map(Drive::NthSkip),
@@ -401,6 +441,7 @@ pub struct InstSpec {
     pub kind: Kind,
     pub dim: DimMode,
     pub field: Field,
+    pub data: DataMode,
     /// constructor first, then setters, optionally `Solve` last
     pub ops: Vec<BOp>,
     pub problem: Problem,
@@ -438,6 +479,7 @@ impl InstSpec {
             ("solver", J::s(self.kind.name())),
             ("dimension", J::S(self.dim.name())),
             ("field", J::s(self.field.name())),
+            ("user_data", J::s(self.data.name())),
             ("ops", J::A(self.ops.iter().map(|o| o.to_json()).collect())),
             ("problem", J::s(self.problem.name())),
             ("y0_scale", J::F(self.y0)),
@@ -458,6 +500,7 @@ impl InstSpec {
             kind: Kind::from_name(s("solver")?).ok_or("bad solver")?,
             dim: DimMode::from_name(s("dimension")?).ok_or("bad dimension")?,
             field: Field::from_name(s("field")?).ok_or("bad field")?,
+            data: j.get("user_data").and_then(|x| x.as_str()).and_then(DataMode::from_name).unwrap_or(DataMode::Unit),
             ops,
             problem: Problem::from_name(s("problem")?).ok_or("bad problem")?,
             y0: j.get("y0_scale").and_then(|x| x.as_f64()).ok_or("missing y0_scale")?,
